@@ -294,3 +294,78 @@ def build3(m):
             'Paragraph.parse_setext == old(Paragraph.parse_setext)',
         ], decreases='len(lines.lines) - 1 - lines._index')},
         prop=P), classmethod_=True)
+
+
+def build4(m):
+    """ListItem.read, List.read (C01, C13)."""
+    def method(cls, name, c, static=False, classmethod_=False):
+        m.methods[(cls, name)] = c.key
+        c.is_static = static
+        c.is_classmethod = classmethod_
+        m.add(c)
+        return c
+
+    MARKER = TTuple([INT, INT, STR, STR])        # indentation, prepend, leader, content
+    m.ufunc('is_marker', [STR], BOOL)
+    method('ListItem', 'parse_marker', Contract(
+        MOD + ':ListItem.parse_marker', [('cls', cls_t('ListItem')), ('line', STR)], returns=TOpt(MARKER),
+        trusted=True, pure=True,
+        ensures=['is_none(result) == (not is_marker(line))',
+                 'implies(not is_none(result), 0 <= some(result)[0] and len(some(result)[2]) >= 1)'],
+        note='A5 capture contract for ListItem.pattern: None iff the pattern does not match; a leader has at least one character'),
+        classmethod_=True)
+    method('ListItem', 'parse_continuation', Contract(
+        MOD + ':ListItem.parse_continuation', [('cls', cls_t('ListItem')), ('line', STR), ('prepend', INT)],
+        returns=TOpt(STR), trusted=True, pure=True,
+        note='A5 capture contract for ListItem.continuation_pattern (result used only for truthiness and as buffer content)'),
+        classmethod_=True)
+    ITEM = TTuple([PB, INT, INT, STR, INT])
+    NESTED = ['N:FileWrapper._index', 'N:FileWrapper.lines', 'N:FileWrapper.start_line',
+              'N:FileWrapper._anchor', 'N:ParseBuffer.items', 'N:ParseBuffer.loose']
+    method('ListItem', 'read', Contract(
+        MOD + ':ListItem.read', [('cls', cls_t('ListItem')), ('lines', FW), ('prev_marker', TOpt(MARKER), NONE_VAL)],
+        returns=TTuple([ITEM, TOpt(MARKER)]),
+        requires=READER_REQ + ['not is_none(prev_marker) or is_marker(lines.lines[lines._index + 1])',
+                               'implies(not is_none(prev_marker), len(some(prev_marker)[2]) >= 1)'],
+        ensures=['CURSOR_OK(lines)', 'old(lines._index) < lines._index',
+                 # the item records the line of its marker
+                 ('result[0][4] == lines.start_line + old(lines._index) + 1', 'C13'),
+                 'len(result[0][3]) >= 1',
+                 'implies(not is_none(result[1]), lines._index + 1 < len(lines.lines) and is_marker(lines.lines[lines._index + 1]))',
+                 'implies(not is_none(result[1]), len(some(result[1])[2]) >= 1)'],
+        ensures_exc=['CURSOR_OK(lines)'],
+        modifies=['lines._index', 'G:SCRATCH', 'G:FOOTNOTES'] + NESTED,
+        allow_exc=['CustomTokenError'],
+        body_types={'next_line': TOpt(STR), 'line_buffer': TList(STR), 'next_marker': TOpt(MARKER)},
+        ghost_init={'g_first': (INT, '-1')},
+        ghost_after={
+            'line_buffer.append(content)': [('g_first', 'lines._index')],
+            'line_buffer.append(continuation)': [('g_first', 'lines._index + 1 if len(line_buffer) == 1 else g_first')],
+        },
+        call_asserts={'mistletoe.block_tokenizer:tokenize_block': [
+            # C13 hand-off: the nested tokenization is told the line of its first buffered line
+            ('implies(len(iterable) > 0, start_line == lines.start_line + g_first)', 'C13')]},
+        loops={
+            0: Loop(invariant=['CURSOR_OK(lines)', 'lines._index > old(lines._index)',
+                               'is_none(next_line) == (lines._index + 1 >= len(lines.lines))',
+                               'implies(not is_none(next_line), some(next_line) == lines.lines[lines._index + 1])',
+                               'blanks >= 1', 'lines._index == old(lines._index) + blanks'],
+                    decreases='len(lines.lines) - 1 - lines._index'),
+            1: Loop(invariant=['CURSOR_OK(lines)', 'lines._index > old(lines._index)',
+                               'is_none(next_line) == (lines._index + 1 >= len(lines.lines))',
+                               'implies(not is_none(next_line), some(next_line) == lines.lines[lines._index + 1])',
+                               '0 <= newline_count', 'newline_count <= len(line_buffer)',
+                               # a backstep after trailing blank lines cannot undo the marker line
+                               'implies(newline_count >= 1, lines._index >= old(lines._index) + 2)',
+                               'start_line == lines.start_line + old(lines._index) + 1',
+                               'len(leader) >= 1',
+                               'is_none(next_marker)',
+                               'at_loop(1, lines._index) == old(lines._index) + 1',
+                               'lines._index >= at_loop(1, lines._index)',
+                               'len(line_buffer) >= at_loop(1, len(line_buffer)) + (lines._index - at_loop(1, lines._index))',
+                               'implies(at_loop(1, len(line_buffer)) > 0 or lines._index > at_loop(1, lines._index), '
+                               'g_first == (old(lines._index) + 1 if at_loop(1, len(line_buffer)) > 0 else old(lines._index) + 2))',
+                               'implies(at_loop(1, len(line_buffer)) == 0 and lines._index == at_loop(1, lines._index), len(line_buffer) == 0)',
+                               ],
+                    decreases='len(lines.lines) - 1 - lines._index'),
+        }, prop=P + ['C13']), classmethod_=True)
